@@ -1522,7 +1522,38 @@ class LuaMinifyTokenWriter(BaseLuaWriter):
         self._last_was_name_keyword_number = False
         self._last_was_newline = True
 
+    @staticmethod
+    def _needs_space(prev_code, code):
+        """Whether two tokens written back to back would lex differently.
+
+        Names, keywords and numbers are kept apart by the caller. This covers
+        the symbol pairs that fuse: '-' '-' (a comment), '[' '[[' (a long
+        string), '.' '.' ('..' '...' or '.5'), and a number followed by '.'.
+        """
+        if not prev_code or not code:
+            return False
+        last = prev_code[-1:]
+        first = code[:1]
+        prev_is_number = (prev_code[:1].isdigit() or
+                          (prev_code[:1] == b'.' and prev_code[1:2].isdigit()))
+        return ((last == b'-' and first == b'-') or
+                (last == b'[' and first == b'[') or
+                (last == b'.' and first == b'.') or
+                (prev_is_number and first == b'.'))
+
     def to_lines(self):
+        """
+        Yields:
+          Chunks of Lua code.
+        """
+        prev_code = b''
+        for chunk in self._to_chunks():
+            if self._needs_space(prev_code, chunk):
+                yield b' '
+            prev_code = chunk
+            yield chunk
+
+    def _to_chunks(self):
         """
         Yields:
           Chunks of Lua code.
